@@ -482,6 +482,64 @@ func thriftOps() []top {
 			}
 			return cls
 		}},
+		{name: "thrift.Node.Field/Index/GetByStr/GetByInt(chained)", bare: true, run: func(sd *tseed, in []byte) string {
+			// the single-step lookups chained by hand (what GetByPath does in one call), every node on the way
+			// and - for lists/sets - every element the header announces (at most 8) cast through Interface
+			n := generic.NewNode(thrift.Type(sd.shape.T), in)
+			cls := "ok"
+			cast := func(c generic.Node) {
+				if c.IsError() {
+					cls = "error"
+					return
+				}
+				x, err := c.Interface(&o0)
+				obs(x)
+				if err != nil {
+					cls = "error"
+				}
+				obs(c.Raw())
+			}
+			elems := func(c generic.Node) {
+				if c.IsError() || (c.Type() != thrift.LIST && c.Type() != thrift.SET) {
+					return
+				}
+				ln, err := c.Len()
+				if err != nil {
+					cls = "error"
+					return
+				}
+				for i := 0; i < ln && i < 8; i++ {
+					cast(c.Index(i))
+				}
+				if ln > 8 {
+					cast(c.Index(ln - 1))
+				}
+			}
+			elems(n)
+			for _, p := range seedPaths(sd) {
+				cur := n
+				for _, st := range p {
+					switch st.Type() {
+					case generic.PathFieldId:
+						cur = cur.Field(st.Id())
+					case generic.PathIndex:
+						cur = cur.Index(st.Int())
+					case generic.PathStrKey:
+						cur = cur.GetByStr(st.Str())
+					case generic.PathIntKey:
+						cur = cur.GetByInt(st.Int())
+					default:
+						cur = cur.GetByPath(st)
+					}
+					if cur.IsError() {
+						break
+					}
+					elems(cur)
+				}
+				cast(cur)
+			}
+			return cls
+		}},
 		{name: "thrift.Value.GetByPath", struct_: true, run: func(sd *tseed, in []byte) string {
 			d, err := descOf(sd.idl, sd.inner, "")
 			if err != nil {
